@@ -342,6 +342,9 @@ func runOne(spec *PropSpec, bin string, job Job, base string, out *merged) {
 			Detail: fmt.Sprintf("child exited abnormally (exit code %d, result done=%v) while running case %s; log %s; tail:\n%s", exitCode, res.Done, caseID, saved, logTail),
 			Replay: cur["replay"], job: job})
 	}
+	if os.Getenv("VERIF_KEEP_LOGS") != "" { // triage aid: keep every child's log under replays/<id>/
+		keepLog(spec, job, logPath)
+	}
 	// sanitizer reports
 	if job.Variant == "race" {
 		parseRaceLogs(base, job, out)
